@@ -478,6 +478,11 @@ class Interp:
         if isinstance(r, Const) and r.v is None:
             return self.is_none(l)
         for a, b in ((l, r), (r, l)):
+            if isinstance(a, Const) and isinstance(b, Sym) and b.distinct:
+                return False
+            if isinstance(a, Const) and isinstance(b, Sym) and b.origin and b.origin[0] in ("upper", "lower", "casefold") \
+                    and isinstance(b.origin[1], Sym) and b.origin[1].distinct:
+                return False
             if isinstance(a, Const) and isinstance(b, (Sym, Str)):
                 if isinstance(a.v, str) and a.v == "" and (isinstance(b, Str) and b.nonempty() or isinstance(b, Sym) and b.truthy):
                     return False
@@ -485,9 +490,15 @@ class Interp:
                     return False
                 if isinstance(b, Sym) and b.truthy is False and a.v:
                     return False
-        if isinstance(l, (NodeV, Obj)) or isinstance(r, (NodeV, Obj)):
-            if isinstance(l, (Const,)) or isinstance(r, (Const,)):
-                return False
+        structured = (NodeV, Obj, EnumV, ClsRef, Tup, Lst, Dct, Ext, Func, Lam, Tpl, ExcV, Seq)
+        for a, b in ((l, r), (r, l)):
+            if isinstance(a, structured):
+                if isinstance(b, (Const, Str)) or (isinstance(b, Sym) and b.typ):
+                    return False
+                if isinstance(b, structured):
+                    if isinstance(a, (Tup, Lst)) and isinstance(b, (Tup, Lst)) and len(a.items) == len(b.items):
+                        return all(self.equal(x, y) for x, y in zip(a.items, b.items))
+                    return a is b
         a, b = sorted([tagof(l), tagof(r)])
         return self.decide(f"{a} == {b}")
 
@@ -878,6 +889,8 @@ class Interp:
             return r
         b = d[len("builtins."):] if d.startswith("builtins.") else None
         a0 = args[0] if args else None
+        if d in ("sqlglot.exp.Literal.string", "sqlglot.exp.Literal.number"):
+            return self.construct(ClsRef("exp.Literal"), [], {"this": a0, "is_string": Const(d.endswith("string"))}, site)
         if d in ("typing.cast", "builtins.cast"):
             return args[1]
         if b == "isinstance":
@@ -941,11 +954,64 @@ class Interp:
         cls = {"SELECT": "Select", "INSERT": "Insert", "UPDATE": "Update", "DELETE": "Delete", "CREATE": "Create",
                "DESCRIBE": "Describe", "WITH": "Select"}.get(kw)
         n = NodeV(cls, {}, name=f"parsed@{self.siteid(site)}", open=True)
+        if isinstance(src, (Const, Str)):
+            # fakesnow's own template: build a closed descriptor from the text (tables, select list)
+            try:
+                self._describe_parsed(n, src)
+            except Exception:  # noqa: BLE001 - keep the open node
+                n.open = True
         n.fresh = True
         n.parsed_from = src  # type: ignore[attr-defined]
         n.parsed_read = kwargs.get("read")  # type: ignore[attr-defined]
         self.effect("parse", d, src, kwargs, site, n)
         return n
+
+    def _describe_parsed(self, n: NodeV, src) -> None:
+        from . import sqlt
+
+        stmts = sqlt.split_statements(sqlt.tokenize(src))
+        if len(stmts) != 1:
+            return
+        st = stmts[0]
+        c = sqlt.classify(st)
+
+        def mk_ident(tok):
+            parts = tok.parts
+            v = Const(parts[0]) if len(parts) == 1 and isinstance(parts[0], str) else (
+                parts[0] if len(parts) == 1 else Str(parts))
+            return NodeV("Identifier", {"this": v, "quoted": Const(tok.kind == "qid")}, name=f"id:{tok.text}", open=False)
+
+        def mk_table(name):
+            a = {"this": mk_ident(name[-1])}
+            if len(name) > 1:
+                a["db"] = mk_ident(name[-2])
+            if len(name) > 2:
+                a["catalog"] = mk_ident(name[-3])
+            t = NodeV("Table", a, name="tbl:" + ".".join(x.text for x in name), open=False)
+            return t
+
+        if c["kind"] == "select":
+            n.open = False
+            tabs = c.get("tables") or []
+            if tabs:
+                t = mk_table(tabs[0])
+                fr = NodeV("From", {"this": t}, name="from", open=False)
+                t.parent = fr
+                fr.parent = n
+                n.args["from"] = fr
+            aliases = sqlt.select_aliases(st)
+            n.args["expressions"] = Lst([
+                NodeV("Alias", {"alias": NodeV("Identifier", {"this": Const(a.strip("'\"")), "quoted": Const(False)},
+                                               name=f"id:{a}", open=False)}, name=f"sel:{a}", open=False)
+                for a in aliases])
+        elif c["kind"] in ("insert", "update", "delete", "create") and (c.get("tables") or c.get("name")):
+            n.open = False
+            name = (c.get("tables") or [c.get("name")])[0]
+            t = mk_table(name)
+            t.parent = n
+            n.args["this"] = t
+            if c["kind"] == "create":
+                n.args["kind"] = Const(c["what"])
 
     def isinstance(self, v, cls) -> bool:
         classes = cls.items if isinstance(cls, Tup) else [cls]
@@ -1051,8 +1117,8 @@ class Interp:
                 if isinstance(a0, Dct):
                     recv.items.update(a0.items)
                 return Const(None)
-        if isinstance(recv, ExcV) or isinstance(recv, ClsRef):
-            pass
+        if isinstance(recv, ClsRef) and recv.dotted == "exp.Literal" and name in ("string", "number"):
+            return self.construct(ClsRef("exp.Literal"), [], {"this": a0, "is_string": Const(name == "string")}, site)
         if isinstance(recv, Sym) and recv.origin and recv.origin[0] == "engine":
             # result of an engine fetch: methods on it are pure
             return Sym(f"{recv.tag}.{name}()", origin=("method", recv, name, args))
@@ -1149,6 +1215,8 @@ class Interp:
             return r
         if name == "find_all":
             classes = [c.short for c in args if isinstance(c, ClsRef)]
+            if not n.open:
+                return Lst(self.closed_find_all(n, classes))
             return Seq(NodeV(classes[0] if len(classes) == 1 else None, name=f"{n.name}.find_all({'|'.join(classes)})"), "gen")
         if name == "transform":
             self.effect("transform", n, a0, kwargs, site)
@@ -1167,6 +1235,22 @@ class Interp:
         if name in ("pop", "unnest", "assert_is"):
             return n
         return Sym(f"{n.name}.{name}()@{self.siteid(site)}", origin=("method", n, name, args))
+
+    def closed_find_all(self, n: NodeV, classes) -> list:
+        out, seen, todo = [], set(), [n]
+        sg = self.prog.sqlglot
+        while todo:
+            x = todo.pop(0)
+            if id(x) in seen:
+                continue
+            seen.add(id(x))
+            if isinstance(x, NodeV):
+                if x.cls and any(sg.issub(x.cls, c) for c in classes):
+                    out.append(x)
+                todo.extend(v for k, v in x.args.items() if ":" not in k)
+            elif isinstance(x, (Lst, Tup)):
+                todo.extend(x.items)
+        return out
 
     def closed_find(self, n: NodeV, classes) -> Val:
         seen = set()
@@ -1354,6 +1438,16 @@ class Interp:
             items = None
             if isinstance(v, (Tup, Lst)) and len(v.items) == len(t.elts) and not getattr(v, "open", False):
                 items = v.items
+            if any(isinstance(x, ast.Starred) for x in t.elts) and isinstance(v, (Tup, Lst)) and not getattr(v, "open", False):
+                si = next(i for i, x in enumerate(t.elts) if isinstance(x, ast.Starred))
+                after = len(t.elts) - si - 1
+                if len(v.items) >= len(t.elts) - 1:
+                    for i in range(si):
+                        self.assign(t.elts[i], v.items[i], env, site)
+                    self.assign(t.elts[si].value, Lst(v.items[si:len(v.items) - after]), env, site)
+                    for j in range(after):
+                        self.assign(t.elts[si + 1 + j], v.items[len(v.items) - after + j], env, site)
+                    return
             if items is None and any(isinstance(x, ast.Starred) for x in t.elts):
                 for i, x in enumerate(t.elts):
                     tgt = x.value if isinstance(x, ast.Starred) else x
